@@ -1,7 +1,7 @@
 (* Dispatcher used by the correspondence check: the model's answer for one case line.
    Function codes are assigned in driver/fncodes.py (single source of the numbering). *)
 From Coq Require Import NArith List Bool.
-From RQ Require Import Base.Outcome Base.Ints Base.ListX Gen.Consts Spec.GF256 Spec.Wire Spec.Oti Spec.Rand Spec.Tuple Spec.Prime Spec.Derive Model.Params Model.Octet Model.Wire Model.Oti Model.Cache Model.SysConst Model.Tuple Model.RunCodec Model.RunKern.
+From RQ Require Import Base.Outcome Base.Ints Base.ListX Gen.Consts Spec.GF256 Spec.Wire Spec.Oti Spec.Rand Spec.Tuple Spec.Prime Spec.Derive Model.Params Model.Octet Model.Wire Model.Oti Model.Cache Model.SysConst Model.Tuple Model.RunCodec Model.RunKern Model.RunMat.
 Import ListNotations.
 Open Scope N_scope.
 
@@ -89,6 +89,8 @@ Definition run_codec (f : N) (a : list N) : list N :=
   | 207 => run_slab_replay Release a
   | 217 => run_slab_replay Checked a
   | 250 => run_spec_block_packets a
+  | 252 => run_cert_ok a
+  | 253 => run_check_intermediate a
   | 251 => run_spec_layout_packets a
   | _ => [0; 99]
   end.
@@ -140,4 +142,5 @@ Definition run (f : N) (a : list N) : list N :=
   else if f <? 300 then run_codec f a
   else if f <? 400 then run_tuple f a
   else if f <? 500 then run_kern f a
+  else if f <? 600 then run_mat f a
   else [0; 99].
